@@ -5,6 +5,6 @@ LEAN_MODULES = _auto.lean_modules("C02")
 VARIANTS = ['default']
 RULE = 'exhaustive op sequences to depth 3 (quick) / 4 (thorough) over {update, update_mut, clone-and-fork, reset, reset_with_key, finalize_reset, finalize} with chunk lengths {0,1,B-1,B,B+1,2B+3}, plus random histories of 5-40 ops; non-trivial = history contains data; distinct = distinct case lines'
 TRUSTED = ["hand-written Lean models (lean/CxVerif/Impl, Spec) tied to the code by the correspondence run and by tables re-extracted from /repo/src"]
-ASSUMPTIONS = []
+ASSUMPTIONS = ['same length guards as C01 at every finalisation of a history', '`clone` is the identity on immutable model values: independence of the two Rust copies is a correspondence obligation (ops c/x), not a theorem; the structs are plain arrays and integers (field lists re-derived from source by the glue translators)']
 gen = _auto.make_gen("C02")
 nontrivial = _auto.default_nontrivial
